@@ -171,6 +171,16 @@ def classify_b2(c):
 
 # ---------------------------------------------------------------------------
 # counters crossing word boundaries, from a preset midstate
+def other_digest(kind, data):
+    """while one object is in mid-stream, ANOTHER object of the same class and size computes a whole digest"""
+    if kind in ("blake2b", "blake2s"):
+        got, exp = guard(guard(Blake2, 512 if kind == "blake2b" else 256), data), b2_ref({"f": kind, "M": data, "params": {}})
+    else:
+        got, exp = guard(guard(Blake, int(kind[5:])), data), RB.blake(int(kind[5:]), data, None, 0)
+    if got != exp:
+        raise Violation("%s:preset-counter:other-object-digest!=reference" % ("blake2" if kind.startswith("blake2") else "blake"), exp, got)
+
+
 def check_preset(c):
     kind, tail, count0 = c["kind"], c["tail"], c["count0"]
     if kind in ("blake2b", "blake2s"):
@@ -179,6 +189,8 @@ def check_preset(c):
         guard(obj.initstate)
         obj.H = Poly(list(c["H"]), w)
         obj.padmethod.bitcnt = 8 * count0
+        if c.get("other"):
+            other_digest(kind, tail)
         got = guard(obj.update, tail, padding=True)
         exp = R2.blake2(w, tail, None, list(c["H"]), count0)
         if got != exp:
@@ -190,6 +202,8 @@ def check_preset(c):
         guard(obj.initstate, salt=c["salt"])
         obj.H = Poly(list(c["H"]), w)
         obj.padmethod.bitcnt = count0
+        if c.get("other"):
+            other_digest(kind, tail)
         got = guard(obj.update, tail, padding=True)
         exp = RB.blake(n, tail, None, c["salt"], list(c["H"]), count0)
         if got != exp:
@@ -219,7 +233,8 @@ def preset_strategy(tier):
             tail = tail[:max(0, room)]
             if kind in ("blake2b", "blake2s") and not tail:
                 tail = b"\x01"      # BLAKE2 cannot finalize on an empty piece after earlier blocks (known finding K01 of C14)
-            return {"kind": kind, "H": tuple(H), "count0": c0, "tail": tail, "salt": 0 if kind in ("blake2b", "blake2s") else salt}
+            return {"kind": kind, "H": tuple(H), "count0": c0, "tail": tail, "salt": 0 if kind in ("blake2b", "blake2s") else salt,
+                    "other": H[0] % 2 == 1}
         return st.builds(build, st.lists(gen.nbits(w), min_size=8, max_size=8), cnt, gen.blob_of(gen.length(B, 3, special=[B - w // 4 - 1])), gen.nbits(4 * w))
     return st.sampled_from(["blake224", "blake256", "blake384", "blake512", "blake2b", "blake2s"]).flatmap(for_kind)
 
@@ -232,7 +247,7 @@ def classify_preset(c):
     else:
         w = 64 if int(kind[5:]) > 256 else 32
         tot = c["count0"] + 8 * len(c["tail"])
-    lab = [kind]
+    lab = [kind, "another object hashes in between" if c.get("other") else "undisturbed"]
     if c["count0"] < (1 << w) <= tot:
         lab.append("crosses low word during tail")
     if tot >= (1 << w):
@@ -249,6 +264,10 @@ def disturb(obj, call, B):
         attempt(obj.update, (data * (B // max(1, len(data)) + 1))[:B] if data else b"")
     elif how == "update-final":
         attempt(obj.update, data, padding=True)
+    elif how == "stream-start":
+        # a new stream is opened properly (initstate) and abandoned after one whole block
+        attempt(obj.initstate)
+        attempt(obj.update, (data * (B // max(1, len(data)) + 1))[:B] if data else bytes(B))
     elif how == "refused":
         attempt(obj, data, bitlen=8 * len(data) + 5)      # BLAKE: over-long bit length; BLAKE2: unknown keyword
 
@@ -301,7 +320,7 @@ def check_history(c):
 
 
 def history_strategy(tier):
-    dist = st.tuples(st.just("disturb"), st.sampled_from(["update-blocks", "update-blocks", "update-final", "refused"]), gen.blob_of(gen.uint(0, 40)))
+    dist = st.tuples(st.just("disturb"), st.sampled_from(["update-blocks", "stream-start", "stream-start", "update-final", "refused"]), gen.blob_of(gen.uint(0, 40)))
     def blake_h(n):
         w = 64 if n > 256 else 32
         call = st.tuples(gen.blob_of(gen.uint(0, 2 * bb(n) + 3)), gen.pick((1, st.just(0)), (1, gen.nbits(4 * w))), gen.uint(0, 9)).map(
@@ -338,7 +357,8 @@ FACETS = [
     Facet("preset-counters", check_preset, strategy=preset_strategy, budget={"quick": 1500, "thorough": 20000}, shards={"quick": 16, "thorough": 32},
           nontrivial=lambda c: True, classify=classify_preset,
           rule="initstate(); H := random chaining words; padmethod.bitcnt := block multiple just below 2^w / 2^(2w) (bits for BLAKE, bytes*8 for BLAKE2) "
-               "or uniformly large; update(tail, padding=True) == resumable reference"),
+               "or uniformly large; update(tail, padding=True) == resumable reference; in half of the cases another object of the same class and size "
+               "computes a complete digest between the preset and the final update"),
     Facet("reused-object", check_history, strategy=history_strategy, budget={"quick": 1000, "thorough": 15000}, shards={"quick": 16, "thorough": 32},
           nontrivial=lambda c: True,
           classify=lambda c: (c["kind"], "has streaming/refused call" if any(x[0] == "disturb" for x in c["calls"]) else "one-shot only",
